@@ -62,7 +62,11 @@ impl HCall {
         let mut o = match &self.call {
             Call::Add { v } => json!({"op":"add","v":jid(v)}),
             Call::Bind { v1, v2, a } => json!({"op":"bind","v1":jid(v1),"v2":jid(v2),"a":a}),
-            Call::Put { v, d } => json!({"op":"put","v":jid(v),"d":d}),
+            Call::Put { v, d } => match d.strip_suffix("~v") {
+                // the representation asked for is not part of the datum (the judge sees the bytes only)
+                Some(b) => json!({"op":"put","v":jid(v),"d":b,"rep":"v"}),
+                None => json!({"op":"put","v":jid(v),"d":d}),
+            },
             Call::Data { v } => json!({"op":"data","v":jid(v)}),
             Call::NextId => json!({"op":"next_id"}),
             Call::Clone { dst } => json!({"op":"clone","dst":dst}),
@@ -86,7 +90,7 @@ impl HCall {
         let call = match v["op"].as_str().unwrap() {
             "add" => Call::Add { v: u("v") },
             "bind" => Call::Bind { v1: u("v1"), v2: u("v2"), a: s("a") },
-            "put" => Call::Put { v: u("v"), d: s("d") },
+            "put" => Call::Put { v: u("v"), d: if v.get("rep").and_then(|x| x.as_str()) == Some("v") { format!("{}~v", s("d")) } else { s("d") } },
             "data" => Call::Data { v: u("v") },
             "next_id" => Call::NextId,
             "clone" => Call::Clone { dst: u("dst") },
@@ -187,18 +191,36 @@ impl World {
                 self.note_label(a);
                 wrap(self.gs[h].as_mut().unwrap().bind(*v1, *v2, a), |_| Ret::Unit)
             }
-            Call::Put { v, d } => wrap(self.gs[h].as_mut().unwrap().put(*v, &bytes_of(d)), |_| Ret::Unit),
+            Call::Put { v, d } => {
+                let g = self.gs[h].as_mut().unwrap();
+                wrap(if crate::real::wants_vector(d) { g.put_vector(*v, &bytes_of(d)) } else { g.put(*v, &bytes_of(d)) }, |_| Ret::Unit)
+            }
             Call::Data { v } => {
                 wrap(self.gs[h].as_mut().unwrap().data(*v), |r| Ret::Data(r.map(|b| hex_text(&b))))
             }
             Call::NextId => wrap(self.gs[h].as_mut().unwrap().next_id(), Ret::Id),
-            Call::Clone { dst } => match self.g(h).dup() {
-                Ok(g) => {
-                    *self.slot(*dst) = Some(g);
-                    Ret::Ok
+            Call::Clone { dst } => {
+                // a handle that already holds a graph of the same type is refreshed with Clone::clone_from (what
+                // `copy.clone_from(&g)` / `copy = g.clone()` of a long-lived copy compile to), a free handle with clone()
+                if *dst != h && self.gs.get(*dst).map(|x| x.is_some()).unwrap_or(false) {
+                    let mut old = self.slot(*dst).take().unwrap();
+                    match self.g(h).dup_into(old.as_mut()) {
+                        Ok(true) => {
+                            *self.slot(*dst) = Some(old);
+                            return Ret::Ok;
+                        }
+                        Ok(false) => {}
+                        Err(p) => return Ret::Panic(p),
+                    }
                 }
-                Err(p) => Ret::Panic(p),
-            },
+                match self.g(h).dup() {
+                    Ok(g) => {
+                        *self.slot(*dst) = Some(g);
+                        Ret::Ok
+                    }
+                    Err(p) => Ret::Panic(p),
+                }
+            }
             Call::Reload { dst } => {
                 // one checkpoint path per process, overwritten by every save() and never removed in between (as a long-lived
                 // checkpoint file is): whatever an earlier, possibly longer image left behind is still there when save() runs
